@@ -188,6 +188,8 @@ impl XDiscreteDistribution {
                 .map(|p| LazyBigint::from_f64(p).unwrap())
                 .take(n)
                 .collect(),
+            // with certain success there are never failures (statrs would loop forever on a NaN rate)
+            Self::NegativeBinomial(i) if i.p() >= 1.0 => vec![LazyBigint::from(0u64); n],
             Self::NegativeBinomial(i) => i.sample_iter(rng).map(LazyBigint::from).take(n).collect(),
             Self::Poisson(i) => i
                 .sample_iter(rng)
